@@ -978,7 +978,7 @@ func (x *Exec) callModular(s *State, fi *FuncInfo, ct *Contract, recv *Term, arg
 	x.applyAssigns(s, fi, ct, env, sig, recv)
 	// results
 	var vals []*Term
-	pureVals := ct.HasAssign && len(ct.Assigns) == 0
+	pureVals := (ct.HasAssign && len(ct.Assigns) == 0) || ct.Pure
 	withEpoch := pureVals && !valueOnly(sig) && !ct.Pure
 	for i := 0; i < sig.Results().Len(); i++ {
 		rt := sig.Results().At(i).Type()
